@@ -151,7 +151,7 @@ var TimeOf = map[string]time.Time{
 }
 
 // OddNames are the file names below oddnames/.
-var OddNames = []string{"caf\xe9-latin1.txt", "cafe\u0301-nfd.txt", "caf\u00e9-nfc.txt", "trailing-blank ", " leading-blank", "-rf", "#hash", "semi;colon", "back`tick", "star*", "brace{a,b}", "q'uo\"te", "pct%41", "colon:name", "comma,name", "dollar$HOME", "amp&ersand", "pipe|name", "lt<gt>", "excl!", "tilde~", "eq=ual", "at@sign", "plus+"}
+var OddNames = []string{"caf\xe9-latin1.txt", "nf-cafe\u0301.txt", "nf-caf\u00e9.txt", "trailing-blank ", " leading-blank", "-rf", "#hash", "semi;colon", "back`tick", "star*", "brace{a,b}", "q'uo\"te", "pct%41", "colon:name", "comma,name", "dollar$HOME", "amp&ersand", "pipe|name", "lt<gt>", "excl!", "tilde~", "eq=ual", "at@sign", "plus+"}
 
 // BoundarySizes are the sizes of the sizes/s<N>.bin fixture files.
 var BoundarySizes = []int{511, 512, 513, 4095, 4096, 4097, 32767, 32768, 32769, 65535, 65536, 65537, 1<<20 - 1, 1 << 20, 1<<20 + 1}
